@@ -58,6 +58,7 @@ def run(tier):
                      "heap layout = relative address order of the edge-list nodes of each rank's graph (the only addresses parmcb orders by); set through a slab allocator and asserted",
                      "point-to-point messaging is not used by parmcb and not modelled"]
     b = builds()
+    c.builds_done()
     conformance(c, b, tier)
     ex = b["sched_mpi"]
     if tier == "quick":
